@@ -13,10 +13,10 @@
                    BY items) stays in the parser's statement, which [parse_check] returns next
                    to the checked one.  None (outside the checker twin):
                      - a SELECT with GROUP BY in which a select field uses the name of a select
-                       field: parseGroupBy has then already run Check on some fields -- rewriting
-                       them in place -- before the WHERE clause and ValidateFields see them, and
-                       ValidateFields checks them a second time; Checker.validate_fields models
-                       fields that are checked once, in order, starting from the parser's trees;
+                       field (kept outside since before resolveFieldNames existed, when
+                       parseGroupBy's Check rewrote such fields in place ahead of WHERE and
+                       ValidateFields; the aggregation plan built for such statements is not
+                       part of this twin either);
                      - a SELECT whose FieldNames and Fields differ in length (Parser.Parse never
                        builds one: Proofs/ParseCheckProofs.v, parsed_select_lengths, to_check_none_iff).
                    With GROUP BY and no field name inside the fields the Check of the GROUP BY
@@ -25,10 +25,9 @@
      check_cycles  twin of SelectStmt.checkFieldCycles (statement.go).
      real_hooks    the four mid-parse tests computed by the checker twin:
                      checkFieldCycles                       check_cycles
-                     findFieldInSelect (ORDER BY item)      Checker.find_order_field
-                     findFieldInSelect + aggregate-name test (GROUP BY item)
-                     Check of the GROUP BY fields           Checker.check, the select fields
-                                                            rewritten in place ([gcheck_loop])
+                     findFieldInSelect (ORDER BY item)      Checker.find_order_field   } on the fields as
+                     findFieldInSelect + aggregate-name test (GROUP BY item)            } resolveFieldNames
+                     Check of the GROUP BY fields           Checker.check ([gcheck_loop]) } left them (Checker.link)
      parse_real    parse_with real_hooks
      parse_check   lex, parse_real, to_check, Checker.build_check (its two stages check_stmt and
                    check_stmt_calls told apart), [plan_check].
@@ -39,8 +38,7 @@
    other (Check, aggregate arguments); for PUT / REMOVE / DELETE their Validate; then the call
    validation of optimizer.go (WHERE before fields; pairs; keys); then buildFinalPlan.
    Checker.check_select begins with the ORDER BY lookup ([check_order]); here that has already
-   passed as a hook, on the same names, and passes again (the test reads only the result type of
-   a field's root node, which Check never changes to or from a scalar type).
+   passed as a hook, on the same names and the same resolved fields, and passes again.
 
    OUTSIDE the model ([pc_oom], decided on the tokens alone, before anything else runs):
      - the lexer twin's own flag (a word with a byte >= 0x80, hex floats, digit separators);
@@ -55,9 +53,10 @@
    (Model/Aggregate.v belongs to C09); the correspondence counts a rejection there as outside
    the model.
 
-   Field references: the Go checker shares the tree of a field between all references to it and
-   rewrites it in place; the twin's [ERef] carries a copy, which Checker.relink brings up to date
-   whenever the field has been checked (Checker.validate_fields, [gcheck_loop] here).
+   Field references: the Go code shares the tree of a field between all references to it;
+   SelectStmt.resolveFieldNames (right after checkFieldCycles) turns the field names inside the
+   fields into references before any of the tests above runs.  The twin's [ERef] carries a copy
+   of the resolved definition (Checker.link).
 
    No proofs in this file. *)
 From Coq Require Import String List Arith Bool ZArith.
@@ -249,25 +248,23 @@ Section Real.
 Variable fo : fops.
 
 (* for _, f := range fields { f.Expr.Check(ctx) }: the group field of a key / value item is the
-   item itself; of any other item the select field found for its name, which Check rewrites in
-   place -- later checks (and everything after parseGroupBy) see the rewritten field, through
-   every reference to it ([i] is the first field with that name: the one references go to) *)
-Fixpoint gcheck_loop (fs : list (string * expr)) (items : list expr) : res (list (string * expr)) :=
+   item itself; of any other item the select field found for its name (the first field with that
+   name).  resolveFieldNames has run: Check finds the field resolved and leaves it as it is, so
+   nothing changes for what comes after parseGroupBy; its type tests are those Check applies
+   to the parser's tree under the CheckCtx of the resolved fields [all] (as in
+   Checker.validate_fields) *)
+Fixpoint gcheck_loop (all raw : list (string * expr)) (items : list expr) : res unit :=
   match items with
-  | [] => Ok fs
+  | [] => Ok tt
   | it :: items' =>
       match it with
-      | EField _ _ => do _ <- Checker.check fo true (Checker.Cctx fs false false) it; gcheck_loop fs items'
+      | EField _ _ => do _ <- Checker.check fo true (Checker.Cctx all false false) it; gcheck_loop all raw items'
       | _ =>
-          match named_idx 0 fs (item_name it) with
-          | None => gcheck_loop fs items'          (* not reached: the item test has passed *)
-          | Some i =>
-              match nth_error fs i with
-              | None => gcheck_loop fs items'
-              | Some (n, f) =>
-                  do f2 <- Checker.check fo true (Checker.Cctx fs false false) f;
-                  gcheck_loop (Checker.relink_fields n f2 (set_nth i (n, f2) fs)) items'
-              end
+          match Checker.get_named raw (item_name it) with
+          | None => gcheck_loop all raw items'          (* not reached: the item test has passed *)
+          | Some f =>
+              do _ <- Checker.check fo true (Checker.Cctx all false false) f;
+              gcheck_loop all raw items'
           end
       end
   end.
@@ -283,7 +280,7 @@ Definition is_atom_name (n : expr) : bool :=
    string: "Invalid function name" at the call; compound names are outside the model, pc_oom)
    + "is it an aggregate function" (reported at the select field) *)
 Definition gitem_real (names : list string) (fields : list expr) (e : expr) : option nat :=
-  let fs := combine names fields in
+  let fs := Checker.link (combine names fields) in
   match Checker.find_order_field fs (epos e, item_name e) with
   | Err (ESyntax p) => Some p
   | _ =>
@@ -308,9 +305,9 @@ Definition gitem_real (names : list string) (fields : list expr) (e : expr) : op
 Definition real_hooks : hooks :=
   Hooks
     (fun names fields => match check_cycles names fields with CErr p => Some p | _ => None end)
-    (fun names fields e => syn_pos (Checker.find_order_field (combine names fields) (epos e, item_name e)))
+    (fun names fields e => syn_pos (Checker.find_order_field (Checker.link (combine names fields)) (epos e, item_name e)))
     gitem_real
-    (fun names fields items => syn_pos (gcheck_loop (combine names fields) items)).
+    (fun names fields items => syn_pos (gcheck_loop (Checker.link (combine names fields)) (combine names fields) items)).
 
 Definition parse_real (ts : list token) : sres := parse_with real_hooks ts.
 
